@@ -1,11 +1,12 @@
 (* EvalLinker.v — the VALUES frame of BaseLinker.solve_t (model Linker/Linker.v, builder of C08) when the submodels are
    parser-built models: with the class template's `pass` for the four linker hooks, one linker.solve_t(t) changes in each
-   submodel only the cells that submodel's own equations assign for index t (as NumPy serves that index — the linker has
-   no feasibility guard of its own), keeps every array length and every descriptor, and never touches the values of the
-   linker's core.  Proved for every evaluation oracle meeting the frame condition, then instantiated with Eval.ev_of. *)
-From Coq Require Import ZArith List Bool Lia.
+   submodel only the cells that submodel's own equations assign for index t, keeps every array length and every descriptor,
+   and never touches the values of the linker's core.  Since fixes 97423a0 / a0fbb5c the linker has the same up-front
+   rejections as a model: min_iter > max_iter and a period without room for the linker's lags / leads change nothing at all
+   (linker_rejected_min_gt_max, linker_infeasible_period_rejected); in a feasible period the assigned cells are (y, p + k).  Proved for every evaluation oracle meeting the frame condition, then instantiated with Eval.ev_of. *)
+From Coq Require Import ZArith List Bool Lia ZifyBool.
 Import ListNotations.
-Require Import PyBase Solver SolverFacts Linker Eval EvalFacts.
+Require Import PyBase Solver SolverFacts Linker Eval EvalFacts EvalFacts2.
 Open Scope Z_scope.
 
 Section EvalLinker.
@@ -179,7 +180,8 @@ Section EvalLinker.
   (* THE VALUES FRAME OF linker.solve_t, for every selection of submodels and every option set *)
   Theorem linker_solve_t_values_frame sel o s : svr s (fst (solve_t sel o t s)).
   Proof.
-    unfold Linker.linker_solve_t_M.
+    unfold Linker.linker_solve_t_M. destruct (max_iter o <? min_iter o); [apply svr_refl|].
+    destruct (linker_infeasible _ _ t); [apply svr_refl|]. unfold Linker.linker_solve_t_body.
     destruct (get_check_values num zero (sel_ids num sel s) t s) as [cur|e]; [|apply svr_refl].
     pose proof (zero_iters_rel (sel_ids num sel s) (l_subs s)) as Z0.
     destruct (zero_iters num (sel_ids num sel s) t (l_subs s)) as [subs1 [e|]]; cbn [fst] in *.
@@ -207,6 +209,31 @@ Section EvalLinker.
       exists c'. split; [reflexivity|]. split; assumption.
     - apply IH. exact Hi.
   Qed.
+
+  (* ---- the linker analogues of C04's up-front rejections (for EVERY oracle and hook: no premise on sev or the hooks) ---- *)
+  Theorem linker_rejected_min_gt_max sel o s :
+    max_iter o < min_iter o -> solve_t sel o t s = (s, LRaise (LExn ValueError)).
+  Proof. intros H. unfold Linker.linker_solve_t_M. replace (max_iter o <? min_iter o) with true by lia. reflexivity. Qed.
+
+  (* the coded guard is `not feasible` at the position t denotes in the linker's span *)
+  Lemma linker_infeasible_iff d n p : py_pos n t = Some p -> linker_infeasible d n t = negb (feasible d n p).
+  Proof.
+    unfold py_pos, linker_infeasible, feasible.
+    destruct ((t <? - Z.of_nat n) || (Z.of_nat n <=? t)) eqn:E; [discriminate|]. intros H; inversion H; subst; clear H.
+    destruct (t <? 0) eqn:Et; apply Bool.eq_true_iff_eq; split; intros HH; lia.
+  Qed.
+
+  (* an explicit request for a period without room for the LINKER's lags or leads (both spellings of t): IndexError, and the
+     whole linker state — core, every submodel's values, status, iterations, the event log — is exactly what it was *)
+  Theorem linker_infeasible_period_rejected sel o s p :
+    min_iter o <= max_iter o ->
+    py_pos (length (status (c_st (l_core s)))) t = Some p ->
+    feasible (c_desc (l_core s)) (length (status (c_st (l_core s)))) p = false ->
+    solve_t sel o t s = (s, LRaise (LExn IndexError)).
+  Proof.
+    intros Hmm Hp Hf. unfold Linker.linker_solve_t_M. replace (max_iter o <? min_iter o) with false by lia.
+    rewrite (linker_infeasible_iff _ _ p Hp), Hf. reflexivity.
+  Qed.
 End EvalLinker.
 
 (* ---- parser-built submodels: every submodel's evaluation pass is Eval.ev_of of its own program ---- *)
@@ -221,17 +248,42 @@ Section EvalLinkerParsed.
   Variable progs : sid -> program num.
   Notation ev_of := (ev_of num add sub mul div pow neg absf ltb leb eqb zero fun1 fun2 flagged).
   Definition lpass : lhook num := fun _ _ _ _ _ jv => (jv, None).
+  (* submodels[id]._evaluate as BaseLinker.evaluate_t calls it: inside `warnings.simplefilter('always')`, so a NumPy warning
+     never becomes an exception there, whatever errors / catch_first_error say (linkers.py evaluate_t) *)
+  Definition lsev : sid -> hook num := fun j t _ _ k v => ev_of (progs j) t EIgnore false k v.
 
   Theorem linker_parsed_solve_t_cells sel o t s i id c :
     nth_error (l_subs s) i = Some (id, c) ->
-    let s' := fst (linker_solve_t_M num sub absf ltb zero (fun j => ev_of (progs j)) lpass lpass lpass lpass sel o t s) in
+    let s' := fst (linker_solve_t_M num sub absf ltb zero lsev lpass lpass lpass lpass sel o t s) in
     vals_of (c_st (l_core s')) = vals_of (c_st (l_core s)) /\
     exists c', nth_error (l_subs s') i = Some (id, c') /\ c_desc c' = c_desc c /\
                agree_outside (written num (progs id) (shape (vals_of (c_st c))) t) (vals_of (c_st c)) (vals_of (c_st c')).
   Proof.
     intros Hi. cbv zeta.
-    apply (linker_solve_t_cells num sub absf ltb zero (fun j => ev_of (progs j)) lpass lpass lpass lpass t
+    apply (linker_solve_t_cells num sub absf ltb zero lsev lpass lpass lpass lpass t
              (fun j sh => written num (progs j) sh t)); try (intros ? ? ? ? ? ?; reflexivity); [|exact Hi].
-    intros j sh. apply parsed_ev_frame.
+    intros j sh em cf k v Hsh. unfold lsev. apply (parsed_ev_frame num add sub mul div pow neg absf ltb leb eqb zero fun1 fun2 flagged (progs j) sh t EIgnore false k v Hsh).
+  Qed.
+
+  (* in a period the guard lets through, with the submodel's own lags / leads within the linker's (lags_leads_are_maxima,
+     C08) and arrays of the span's length: the cells a submodel may change are exactly (y, p + k) for its left-hand terms *)
+  Theorem linker_parsed_solve_t_cells_feasible sel o t s i id c p :
+    nth_error (l_subs s) i = Some (id, c) ->
+    py_pos (length (status (c_st (l_core s)))) t = Some p ->
+    feasible (c_desc (l_core s)) (length (status (c_st (l_core s)))) p = true ->
+    wf_vals (length (status (c_st (l_core s)))) (vals_of (c_st c)) ->
+    (prog_lags num (progs id) <= lags (c_desc (l_core s)))%nat -> (prog_leads num (progs id) <= leads (c_desc (l_core s)))%nat ->
+    let s' := fst (linker_solve_t_M num sub absf ltb zero lsev lpass lpass lpass lpass sel o t s) in
+    exists c', nth_error (l_subs s') i = Some (id, c') /\ c_desc c' = c_desc c /\ shape (vals_of (c_st c')) = shape (vals_of (c_st c)) /\
+      forall j q, (forall k, In (j, k) (prog_lhs num (progs id)) -> Z.of_nat q <> Z.of_nat p + k) ->
+                  nth_error (nth j (vals_of (c_st c')) []) q = nth_error (nth j (vals_of (c_st c)) []) q.
+  Proof.
+    intros Hi Hp Hf Hwf Hlag Hlead. cbv zeta.
+    destruct (linker_parsed_solve_t_cells sel o t s i id c Hi) as (_ & c' & Hn & Hd & [S C]).
+    exists c'. split; [exact Hn|]. split; [exact Hd|]. split; [exact S|].
+    intros j q Hq. apply C. intros Hw.
+    apply feasible_inv in Hf as [F1 F2].
+    destruct (written_feasible num (progs id) _ _ t p j q Hwf Hp ltac:(lia) ltac:(lia) Hw) as (k & Hin & Hk).
+    exact (Hq k Hin Hk).
   Qed.
 End EvalLinkerParsed.
